@@ -289,6 +289,8 @@ class Interp:
         self.handling = []          # stack of exceptions being handled (for bare raise)
         self.stubs = {}             # function -> replacement callable (environment stubs)
         self.nodes_executed = 0
+        self.nondet_sets = False    # iteration order of native sets is a solver-chosen permutation
+        self._set_orders = 0
 
     # ------------------------------------------------------------------ symbolic-ness
     def mark_holder(self, obj):
@@ -722,10 +724,33 @@ class Interp:
             return iter([models.str_getitem(v, i) for i in range(n)])
         if isinstance(v, Sym):
             raise TypeError("'%s' object is not iterable" % type(v).__name__)
+        if self.nondet_sets and isinstance(v, (set, frozenset)) and len(v) > 1:
+            return iter(self.arbitrary_order(list(v)))
         it = getattr(type(v), '__iter__', None)
         if isinstance(it, types.FunctionType) and self.should_interpret(it, [v], {}):
             return self.call_function(it, [v], {})
         return iter(v)
+
+    def arbitrary_order(self, items):
+        """the iteration order of a hash set depends on the string-hash seed / object addresses: make it a symbolic
+        choice (all permutations up to 3 elements; identity, reversed and one rotation beyond)"""
+        import itertools
+        n = len(items)
+        if n <= 3:
+            orders = [list(p) for p in itertools.permutations(range(n))]
+        else:
+            idx = list(range(n))
+            orders = [idx, idx[::-1], idx[1:] + idx[:1]]
+        eng = engine()
+        self._set_orders += 1
+        v = eng.new_int('set_iteration_order_%d' % self._set_orders)
+        eng.add(z3.And(v.e >= 0, v.e < len(orders)))
+        k = len(orders) - 1
+        for j in range(len(orders) - 1):
+            if eng.branch(v.e == j):
+                k = j
+                break
+        return [items[i] for i in orders[k]]
 
     def st_Raise(self, s, env):
         if s.exc is None:
